@@ -39,6 +39,10 @@ def _make(rng, typ):
         v = GV.struct(rng)
         w = dict(v, release=list(v["release"]) + [0] * rng.choice([0, 1, 2]))
         return GV.spell(rng, v), GV.spell(rng, w), GV.spell(rng, GV.neighbour(rng, v))
+    if typ == "Specifier" and rng.random() < 0.12:
+        # arbitrary equality compares text without regard to letter case: two spellings, and a near miss
+        t = rng.choice(["1.0+LOCAL", "1.0RC1", "2.0.POST1", "Foo", "1.0+Ubuntu.1", "v1.0A1"])
+        return "===" + t, "===" + rng.choice([t.lower(), t.upper(), t.swapcase()]), "===" + t + "x"
     if typ == "Specifier":
         c = GS.clause_struct(rng)
         op, v, wc = c
@@ -81,6 +85,14 @@ def _make(rng, typ):
         st2 = dict(st, name=st["name"].upper().replace("-", "_"), extras=extras2, clauses=list(reversed(st["clauses"])))
         if st["marker"]:
             st2["marker"] = respell_marker(rng, st["marker"])
+        if rng.random() < 0.3:
+            # near miss: the same requirement with another URL / with a URL instead of no version clause
+            st3 = dict(st, clauses=[], paren=False, url=(st["url"] or "https://example.com/a.zip") + ("x" if st["url"] else ""))
+            if st["url"] is None and not st["clauses"]:
+                pass                                   # a: `name`, c: `name @ url`
+            elif st["url"] is None:
+                st3 = dict(st, name=st["name"] + "x")  # (a URL cannot be added next to version clauses)
+            return render(rng, st), render(rng, st2), render(rng, st3)
         return render(rng, st), render(rng, st2), render(rng, req_struct(rng))
     if typ == "Tag":
         parts = [rng.choice(["py3", "cp39", "CP310"]), rng.choice(["none", "abi3", "CP39M"]), rng.choice(["any", "linux_x86_64", "Win32", "macosx_10_9_X86_64"])]
